@@ -41,6 +41,8 @@ def make(rng):
             rx.setdefault(i, []).append(rng.choice([('send_text', ('s', [104, 105]), True), ('send_binary', ('b', b'\x00\x01'), True),
                                                     ('send_ping', ('b', b'')), ('close', 1001, ('b', b'again'))]))
     sc.reactions = rx
+    sc.ctimeout = rng.choice([30, 30, 30, 0, 0, 5])
+    sc.zero = rng.random() < 0.5           # a disabled close timeout given as 0 rather than None
     return sc
 
 
@@ -70,6 +72,12 @@ def judge(res, js, line, real):
                 if tk[i] == 'R:ok' and tk[i - 1].startswith(('W:', 'Z:')):
                     return fail('a send after the Close frame was accepted', 'send-after-close')
     names = [t for t in tk if t.startswith('E:')]
+    # the handshake may only be cut short by the close timeout when that is enabled and has really elapsed
+    if any(t.startswith('E:disconnected:close-timeout') for t in tk):
+        elapsed = sum(st[1] for st in js['env'] if st[0] == 'wait')
+        if js['ctimeout'] == 0 or elapsed < js['ctimeout']:
+            return fail('closing handshake cut short by a close timeout that is disabled / has not elapsed (close_timeout=%s%s, %d s of history)'
+                        % (js['ctimeout'], ' given as 0' if js.get('zero') else '', elapsed), 'premature-close-timeout')
     # server closes first: Closing(code, reason) then exactly one echo with the same code
     for i, t in enumerate(tk):
         if t.startswith('E:closing:'):
@@ -112,7 +120,7 @@ def explore(res, tier, seed, model_ok=True):
     rng = random.Random(seed)
     n = 500 if tier == 'quick' else 8000
     res.rule = ('%d histories: handshake, 0-3 messages, application close() at a random event (incl. Connecting/Connected/Ready) with code/reason variants, 0-3 more messages, server Close (valid code, empty, with reason) or none, more frames, EOF; '
-                'application sends (text, binary, ping, second close) at random events; oracle: wire opcode sequence, per-call results and event order judged by rules written from the property; '
+                'application sends (text, binary, ping, second close) at random events; close_timeout 30 / 5 / disabled (given as None or as 0); oracle: wire opcode sequence, per-call results and event order judged by rules written from the property; '
                 'non-trivial = history containing a close() call or a server Close; distinct by operation line') % n
     scs = [make(rng) for _ in range(n)]
     pairs = coreutil.run_pairs(scs, model_ok)
